@@ -40,6 +40,12 @@ def Dec.lt (a b : Dec) : Bool := decide ((Dec.scale a b).1 < (Dec.scale a b).2)
 def Dec.add (a b : Dec) : Dec := ((Dec.scale a b).1 + (Dec.scale a b).2, min a.2 b.2)
 def Dec.sum (l : List Dec) : Dec := l.foldr Dec.add (0, 0)
 
+/-- constructors used by the generated table: `pn 123 4` = `123 · 10^-4`, `np 5 0` = `-5`, … -/
+def pp (m e : Nat) : Dec := (Int.ofNat m, Int.ofNat e)
+def pn (m e : Nat) : Dec := (Int.ofNat m, -Int.ofNat e)
+def np (m e : Nat) : Dec := (-Int.ofNat m, Int.ofNat e)
+def nn (m e : Nat) : Dec := (-Int.ofNat m, -Int.ofNat e)
+
 inductive Kind where
   | pop | qty | frac | season | cropReduc | grassReduc | growth | free
   deriving DecidableEq, Repr
